@@ -68,6 +68,7 @@ Qed.
 (* ---- the theorem ------------------------------------------------------------------------------------------- *)
 
 Section Main.
+  Variable fx : bool.                (* true: the current code; false: before commit 063269b *)
   Variable s : bstate.
   Hypothesis HI : BInv s.
   Hypothesis HF : BFix s.
@@ -122,18 +123,18 @@ Section Main.
   Proof. intros H. change (w_space (boot_view s)) with (lspace l). destruct (last' >? lspace l * C) eqn:E; [lia|reflexivity]. Qed.
 
   Theorem boot_parse_full_view_noboot : bboot s = None ->
-    boot_parse_full (boot_view s) = POk (mk_reopen (reopened s) (reopened_src s) (entry_rbas s) (reopened_olen s)).
+    boot_parse_full_gen fx (boot_view s) = POk (mk_reopen (reopened_gen fx s) (reopened_src_gen fx s) (entry_rbas s) (reopened_olen_gen fx s)).
   Proof.
     intros Hb. assert (Hhb : has_boot s = false) by (unfold has_boot; rewrite Hb; reflexivity).
     destruct bp_walk_view as (last' & Hl' & Hw). unfold bp_cat_of in Hw. rewrite Hhb in Hw.
-    unfold boot_parse_full.
+    unfold boot_parse_full_gen.
     change (w_br (boot_view s)) with (if has_boot s then Some (17, cat_extent s) else None).
     change (w_tree (boot_view s)) with (lroot (bl s)). change (w_next (boot_view s)) with nx. rewrite Hhb.
     change (lvisit {| lroot := lroot (bl s); linodes := []; lnext := 0; lptr_size := 0; lptr_ext := 0; lspace := 0 |})
       with (lvisit l).
     rewrite Hw. cbn [ws_tbl ws_e2i ws_cat ws_last]. rewrite (bp_space_view last' Hl').
     pose proof bp_tree_view as Ht. unfold bp_cat_of in Ht. rewrite Hhb in Ht. change (lroot (bl s)) with (lroot l). rewrite Ht.
-    unfold reopened, reopened_src, reopened_olen, entry_rbas, reopened. rewrite Hb. fold l tbl nx t1.
+    unfold reopened_gen, reopened_src_gen, reopened_olen_gen, entry_rbas, reopened_gen. rewrite Hb. fold l tbl nx t1.
     cbn [bbits map]. rewrite app_nil_r.
     pose proof (bp_strip_src s t1 []) as Hs. unfold bp_hsrc in Hs. cbn [map] in Hs. rewrite !app_nil_r in Hs.
     rewrite Hs. reflexivity.
@@ -143,7 +144,7 @@ Section Main.
     Variable b : boot.
     Hypothesis Hb : bboot s = Some b.
     Let es := combine (binos b) (cat_scs (bcat b)).
-    Let t2 := bp_hidden s es ks.
+    Let t2 := bp_hidden fx s (binos b) es ks.
     Let t := t1 ++ t2.
 
     Lemma bp_hb : has_boot s = true.
@@ -178,7 +179,7 @@ Section Main.
       rewrite (bp_loc_src s j t2 t1 (bp_named_entries s j (bp_ids_lt j Hp1) Hp2 _ _)). fold t.
       assert (Hin : has_ino j t = true); [|rewrite Hin; reflexivity].
       apply ab_has_ino_in. unfold t, ids. rewrite map_app. apply in_or_app.
-      destruct (bp_hidden_covers s j es ks) as [H|H]; [rewrite bp_es_fst; exact Hj| |right; exact H].
+      destruct (bp_hidden_covers s fx (binos b) j es ks) as [H|H]; [rewrite bp_es_fst; exact Hj| |right; exact H].
       left. apply ab_mem_in in H. unfold ks, bp_nonempty_ids in H. apply in_map_iff in H.
       destruct H as (e & He & Hin). apply filter_In in Hin. apply in_map_iff. exists e. tauto.
     Qed.
@@ -200,14 +201,14 @@ Section Main.
     Qed.
 
     Theorem boot_parse_full_view_boot :
-      boot_parse_full (boot_view s) = POk (mk_reopen (reopened s) (reopened_src s) (entry_rbas s) (reopened_olen s)).
+      boot_parse_full_gen fx (boot_view s) = POk (mk_reopen (reopened_gen fx s) (reopened_src_gen fx s) (entry_rbas s) (reopened_olen_gen fx s)).
     Proof.
       destruct bp_walk_view as (last' & Hl' & Hw). unfold bp_cat_of in Hw. rewrite bp_hb in Hw.
       destruct bp_built as (ab & Hab & Hlen).
       assert (Hlr : length (entry_rbas s) = length (cat_entries (bcat b))).
       { unfold entry_rbas. rewrite Hb, map_length. exact Hlen. }
       destruct (bp_cat_roundtrip (bcat b) ab (entry_rbas s) Hab bp_rbas_u32 Hlr) as (R1 & R2 & R3 & R4 & _).
-      unfold boot_parse_full.
+      unfold boot_parse_full_gen.
       change (w_br (boot_view s)) with (if has_boot s then Some (17, cat_extent s) else None).
       change (w_tree (boot_view s)) with (lroot (bl s)). change (w_next (boot_view s)) with nx.
       change (w_cat_block (boot_view s))
@@ -224,26 +225,32 @@ Section Main.
                     = map (fun p : nat * Z => (rba_of s (fst p), snd p, fst p)) es).
       { rewrite R3, R4. unfold entry_rbas. rewrite Hb. apply bp_combine3. }
       rewrite Hes, R2, R3. change (lspace l) with (lspace (bl s)).
-      rewrite (bp_link_sim s HI HF es ks (mk_lstate2 (bp_srcform s t1) (bp_e2i s ks) []));
+      rewrite (bp_link_view s HI HF fx es ks (mk_lstate2 (bp_srcform s t1) (bp_e2i s ks) []));
         [|apply Forall_forall; intros p Hp; apply bp_binos_placed; rewrite <- bp_es_fst; apply in_map, Hp
          |apply bp_named_placed|reflexivity].
-      cbn [l2_tbl l2_e2i l2_inos app]. fold t2. rewrite bp_es_fst, bp_strip_src, bp_bits_view.
+      cbn [l2_tbl l2_e2i l2_inos app]. rewrite bp_es_fst. fold t2. rewrite bp_strip_src, bp_bits_view.
       rewrite bp_olen_view.
       2:{ intros j Hj. apply dedup_in in Hj. destruct Hj as [Hj _]. apply filter_In in Hj. destruct Hj as [Hj1 Hj2].
           apply andb_prop in Hj2. tauto. }
-      unfold reopened, reopened_src, reopened_olen, reopened. rewrite Hb. fold l tbl nx t1 ks es t2 t.
+      unfold reopened_gen, reopened_src_gen, reopened_olen_gen, reopened_gen. rewrite Hb. fold l tbl nx t1 ks es t2 t.
       cbn [bbits]. unfold entry_rbas. rewrite Hb. reflexivity.
     Qed.
   End Boot.
 
   Theorem boot_parse_full_view :
-    boot_parse_full (boot_view s) = POk (mk_reopen (reopened s) (reopened_src s) (entry_rbas s) (reopened_olen s)).
+    boot_parse_full_gen fx (boot_view s) = POk (mk_reopen (reopened_gen fx s) (reopened_src_gen fx s) (entry_rbas s) (reopened_olen_gen fx s)).
   Proof.
     destruct (bboot s) as [b|] eqn:Hb; [apply (boot_parse_full_view_boot b Hb)|apply boot_parse_full_view_noboot, Hb].
   Qed.
 
-  Theorem boot_parse_view_inv : boot_parse (boot_view s) = POk (reopened s).
-  Proof. unfold boot_parse. rewrite boot_parse_full_view. reflexivity. Qed.
+  Theorem boot_parse_gen_view : boot_parse_gen fx (boot_view s) = POk (reopened_gen fx s).
+  Proof. unfold boot_parse_gen. rewrite boot_parse_full_view. reflexivity. Qed.
 End Main.
 
+(* the current code *)
+Theorem boot_parse_view_inv s : BInv s -> BFix s -> bp_names_ok s -> lspace (bl s) <= 4294967295 ->
+  boot_parse (boot_view s) = POk (reopened s).
+Proof. intros. apply (boot_parse_gen_view true); assumption. Qed.
+
 Print Assumptions boot_parse_full_view.
+Print Assumptions boot_parse_view_inv.
